@@ -153,6 +153,10 @@ pub fn cmd_tabulate(jobs_path: &str, outdir: &str, threads: usize) {
   let text = std::fs::read_to_string(jobs_path).unwrap_or_else(|e| { eprintln!("cannot read {}: {}", jobs_path, e); std::process::exit(2) });
   let root: Value = serde_json::from_str(&text).unwrap_or_else(|e| { eprintln!("bad jobs file: {}", e); std::process::exit(2) });
   let maxstates = root["maxstates"].as_u64().unwrap_or(50000) as usize;
+  // once the whole run has recorded this many states every further layout is cut at 2 000 (disk and time stay bounded for a
+  // change of the code that makes the state space explode)
+  let budget = root["budget"].as_u64().unwrap_or(u64::MAX) as usize;
+  let total = std::sync::Arc::new(std::sync::atomic::AtomicUsize::new(0));
   // a shard file is closed once it holds this many table states, so that neither this process nor
   // the TLC process that loads the shard needs memory proportional to the whole family
   let shard_states = root["shard_states"].as_u64().unwrap_or(40000) as usize;
@@ -177,6 +181,7 @@ pub fn cmd_tabulate(jobs_path: &str, outdir: &str, threads: usize) {
   for th in 0..threads {
     let jobs = jobs.clone();
     let outdir = outdir.to_string();
+    let total = total.clone();
     handles.push(std::thread::spawn(move || {
       let mut hdrs: Vec<Value> = vec![];
       let mut body: Vec<String> = vec![];
@@ -192,7 +197,9 @@ pub fn cmd_tabulate(jobs_path: &str, outdir: &str, threads: usize) {
       };
       for (ji, job) in jobs.iter().enumerate() {
         if ji % threads != th { continue; }
-        let mut t = tabulate_one(job, maxstates);
+        let cap = if total.load(std::sync::atomic::Ordering::Relaxed) > budget { std::cmp::min(maxstates, 2000) } else { maxstates };
+        let mut t = tabulate_one(job, cap);
+        total.fetch_add(t.states, std::sync::atomic::Ordering::Relaxed);
         let base = body.len();
         if t.states > 0 { t.hdr["first"] = json!(base + 1); }
         for mut l in t.lines.drain(..) { rebase(&mut l, base); l["l"] = json!(hdrs.len() + 1); body.push(l.to_string()); }
